@@ -41,3 +41,17 @@ Definition assert_slippage_cp (tol : option Z) (d0 d1 r0 r1 : Z) : outcome unit 
       do e  <- dec_from_ratio P256 r1 r0;
       if e <? c' then Err E_SLIPPAGE else Ok tt
   end.
+
+(* stableswap deposits (terraswap_pair StableSwap arm and stableswap_3pool): the ratio of all reserves to the LP supply,
+   scaled by (1 - t), must not exceed the ratio of all deposits to the LP amount minted for them.
+   dep_total / pool_total are the sums over the two (three) assets; Uint256 sums of Uint128 values cannot overflow. *)
+Definition assert_slippage_stable (tol : option Z) (dep_total pool_total amount supply : Z) : outcome unit :=
+  match tol with
+  | None => Ok tt
+  | Some t =>
+      if DEC <? t then Err E_OTHER else                (* "slippage_tolerance cannot bigger than 1" *)
+      do pr <- dec_from_ratio P256 pool_total supply;  (* panics when the LP supply is 0 *)
+      do dr <- dec_from_ratio P256 dep_total amount;   (* panics when nothing is minted *)
+      do m  <- dec_mul P256 pr (DEC - t);
+      if dr <? m then Err E_SLIPPAGE else Ok tt
+  end.
